@@ -30,11 +30,11 @@ func CheckDataRefs(reg template.Registry) (err error) {
 		tc := newTemplateChecker(reg, t)
 		tc.checkTemplate(t.Node)
 
-		// check that all params appear in the usedKeys
+		// check that all params have been used
 		var unusedParamNames []string
-		for _, param := range tc.params {
-			if !contains(tc.usedKeys, param) {
-				unusedParamNames = append(unusedParamNames, param)
+		for _, v := range tc.vars {
+			if v.kind == paramVar && !v.used {
+				unusedParamNames = append(unusedParamNames, v.name)
 			}
 		}
 		if len(unusedParamNames) > 0 {
@@ -44,34 +44,62 @@ func CheckDataRefs(reg template.Registry) (err error) {
 	return nil
 }
 
+type varKind int
+
+const (
+	paramVar varKind = iota
+	letVar
+	forVar
+)
+
+// variable is a binding that data refs may resolve to.
+type variable struct {
+	name string
+	kind varKind
+	used bool
+}
+
 type templateChecker struct {
 	registry template.Registry
 	params   []string
-	letVars  []string
-	forVars  []string
-	usedKeys []string
+	vars     []*variable // the bindings in scope, innermost last
 }
 
 func newTemplateChecker(reg template.Registry, tpl template.Template) *templateChecker {
 	var paramNames []string
+	var vars []*variable
 	for _, param := range tpl.Doc.Params {
 		paramNames = append(paramNames, param.Name)
+		vars = append(vars, &variable{param.Name, paramVar, false})
 	}
-	return &templateChecker{reg, paramNames, nil, nil, nil}
+	return &templateChecker{reg, paramNames, vars}
 }
 
 func (tc *templateChecker) checkTemplate(node ast.Node) {
 	switch node := node.(type) {
 	case *ast.LetValueNode:
 		tc.checkLet(node.Name)
-		tc.letVars = append(tc.letVars, node.Name)
+		// the variable is not in scope within its own definition.
+		tc.recurse(node)
+		tc.vars = append(tc.vars, &variable{node.Name, letVar, false})
+		return
 	case *ast.LetContentNode:
 		tc.checkLet(node.Name)
-		tc.letVars = append(tc.letVars, node.Name)
+		tc.recurse(node)
+		tc.vars = append(tc.vars, &variable{node.Name, letVar, false})
+		return
 	case *ast.CallNode:
 		tc.checkCall(node)
 	case *ast.ForNode:
-		tc.forVars = append(tc.forVars, node.Var)
+		// the loop variable is in scope in the loop body only.
+		tc.checkTemplate(node.List)
+		tc.vars = append(tc.vars, &variable{node.Var, forVar, false})
+		tc.checkTemplate(node.Body)
+		tc.vars = tc.vars[:len(tc.vars)-1]
+		if node.IfEmpty != nil {
+			tc.checkTemplate(node.IfEmpty)
+		}
+		return
 	case *ast.DataRefNode:
 		tc.visitKey(node.Key)
 	case *ast.HeaderParamNode:
@@ -111,7 +139,7 @@ func (tc *templateChecker) checkCall(node *ast.CallNode) {
 	if node.AllData {
 		for _, param := range tc.params {
 			if contains(allCalleeParamNames, param) {
-				tc.usedKeys = append(tc.usedKeys, param)
+				tc.markParamUsed(param)
 				callerParamNames = append(callerParamNames, param)
 			}
 		}
@@ -157,78 +185,55 @@ func (tc *templateChecker) checkCall(node *ast.CallNode) {
 }
 
 func (tc *templateChecker) recurse(parent ast.ParentNode) {
-	var initialForVars = len(tc.forVars)
-	var initialLetVars = len(tc.letVars)
-	var initialUsedKeys = len(tc.usedKeys)
+	var initialVars = len(tc.vars)
 	for _, child := range parent.Children() {
 		tc.checkTemplate(child)
 	}
-	tc.forVars = tc.forVars[:initialForVars]
 
-	// quick return if there were no {let}s
-	if initialLetVars == len(tc.letVars) {
-		return
-	}
-
-	// "pop" the {let} variables, as well as their usages.
-	// (this is necessary to handle shadowing of @params by {let} vars)
-	var letVarsGoingOutOfScope = tc.letVars[initialLetVars:]
-	var usedKeysToKeep, usedLets []string
-	for _, key := range tc.usedKeys[initialUsedKeys:] {
-		if contains(letVarsGoingOutOfScope, key) {
-			usedLets = append(usedLets, key)
-		} else {
-			usedKeysToKeep = append(usedKeysToKeep, key)
-		}
-	}
-
+	// the variables defined in this block go out of scope.
 	// check that any let variables leaving scope have been used
 	var unusedLetVarNames []string
-	for _, letVar := range letVarsGoingOutOfScope {
-		if !contains(usedLets, letVar) {
-			unusedLetVarNames = append(unusedLetVarNames, letVar)
+	for _, v := range tc.vars[initialVars:] {
+		if v.kind == letVar && !v.used {
+			unusedLetVarNames = append(unusedLetVarNames, v.name)
 		}
 	}
 	if len(unusedLetVarNames) > 0 {
 		panic(fmt.Errorf("{let} variables %q are not used.", unusedLetVarNames))
 	}
-
-	tc.usedKeys = append(tc.usedKeys[:initialUsedKeys], usedKeysToKeep...)
-	tc.letVars = tc.letVars[:initialLetVars]
+	tc.vars = tc.vars[:initialVars]
 }
 
+// visitKey resolves the key to the innermost variable of that name and records
+// that it was used.
 func (tc *templateChecker) visitKey(key string) {
-	// record that this key was used in the template.
-	tc.usedKeys = append(tc.usedKeys, key)
-
-	// check that the key was provided by a @param or {let}
-	if !tc.checkKey(key) {
-		panic(fmt.Errorf("data ref %q not found. params: %v, let variables: %v",
-			key, tc.params, tc.letVars))
+	if key == "ij" {
+		return
 	}
+	for i := len(tc.vars) - 1; i >= 0; i-- {
+		if tc.vars[i].name == key {
+			tc.vars[i].used = true
+			return
+		}
+	}
+	var letVars []string
+	for _, v := range tc.vars {
+		if v.kind != paramVar {
+			letVars = append(letVars, v.name)
+		}
+	}
+	panic(fmt.Errorf("data ref %q not found. params: %v, let variables: %v",
+		key, tc.params, letVars))
 }
 
-// checkKey returns true if the given key exists as a param or {let} variable.
-func (tc *templateChecker) checkKey(key string) bool {
-	if key == "ij" {
-		return true
-	}
-	for _, param := range tc.params {
-		if param == key {
-			return true
+// markParamUsed records that the template's param of the given name is used
+// (passed on by a data="all" call), whatever shadows it at this point.
+func (tc *templateChecker) markParamUsed(name string) {
+	for _, v := range tc.vars {
+		if v.kind == paramVar && v.name == name {
+			v.used = true
 		}
 	}
-	for _, varName := range tc.letVars {
-		if varName == key {
-			return true
-		}
-	}
-	for _, varName := range tc.forVars {
-		if varName == key {
-			return true
-		}
-	}
-	return false
 }
 
 func contains(slice []string, item string) bool {
